@@ -15,6 +15,12 @@
 #define FIN_C g_yf.c
 #define FIN_ONCE(f, e, m) ((f).calls == OLD((f).calls) + 1 && (f).rv == (int) (e) && (f).msg == (m))
 #define FIN_NONE(f) ((f).calls == OLD((f).calls))
+/* reachability probes (only with -DREQY_COVER, never in a registered unit): each must FAIL */
+#ifdef REQY_COVER
+#define COVER(c) __CPROVER_ensures(!(c))
+#else
+#define COVER(c)
+#endif
 
 /* ====================================================================== */
 /* req0_ctx_send (C04: a new request discards the previous one; fresh id with the request bit, registered;
@@ -70,101 +76,275 @@
 /* the context has no request: what req0_ctx_recv answers with NNG_ESTATE, on no list, nothing pending */
 #define S_CTX_IDLE (CTX_IS_RESET(C1) && C1->send_aio == NULL && C1->recv_aio == NULL && S_SENDQ_WITHOUT_C1 && LIST_IS_EMPTY(&SOCK->retry_queue) && X_OFF_PIPE)
 static void req0_ctx_send(void *arg, nni_aio *aio)
-__CPROVER_requires(S_CTX_PRE && arg == g_c1 && aio == AIO_A && VP_NO_LOCK_HELD)
+#define S_ARG_PRE (arg == g_c1)
+#include "modules/reqy/send_clauses.h"
+#undef S_ARG_PRE
+;
+/* req0_sock_send: the socket-level send IS a send on the socket's own context (units with -DREQ_CM=1) */
+static void req0_sock_send(void *arg, nni_aio *aio)
+#define S_ARG_PRE (arg == g_sock && g_c1 == (void *) &SOCK->master)
+#include "modules/reqy/send_clauses.h"
+#undef S_ARG_PRE
+;
+/* req0_sock_recv: the socket-level receive IS a receive on the socket's own context: same clauses as the contract
+ * of req0_ctx_recv in modules/req(x)/contracts.h with the context = &sock->master (C04 state machine, C15) */
+#define SR_C (&SOCK->master)
+#define SR_REFUSED (OLD(SR_C->recv_aio) != NULL || (OLD(SR_C->req_msg) == NULL && OLD(SR_C->rep_msg) == NULL))
+static void req0_sock_recv(void *arg, nni_aio *aio)
+__CPROVER_requires(OBJ_OK(g_sock, struct req0_sock) && arg == g_sock && SR_C->sock == SOCK && VP_NO_LOCK_HELD)
+__CPROVER_requires(__CPROVER_is_fresh(aio, sizeof(nni_aio)))
+__CPROVER_requires(SR_C->rep_msg == NULL || MSG_PRE(SR_C->rep_msg))
+__CPROVER_requires(g_pollr_addr == &SOCK->readable && g_pollw_addr == &SOCK->writable)
+__CPROVER_assigns(aio->a_msg, SR_C->recv_aio, SR_C->rep_msg, SR_C->conn_reset, VP_PROTO_GHOST_LIST, VP_SYNC_GHOSTS, VPX_FIN_GHOSTS, VPY_GHOSTS)
+__CPROVER_ensures(VP_NO_LOCK_HELD)
+/* out of order (no request outstanding, or a receive already pending): NNG_ESTATE (or the latched NNG_ECONNRESET), nothing changes */
+__CPROVER_ensures(SR_REFUSED ==> (g_fin_calls == OLD(g_fin_calls) + 1 && g_fin_last == aio && g_fin_last_rv == (OLD(SR_C->conn_reset) ? NNG_ECONNRESET : NNG_ESTATE) && !SR_C->conn_reset
+    && g_start_calls == OLD(g_start_calls) && SR_C->recv_aio == OLD(SR_C->recv_aio) && SR_C->rep_msg == OLD(SR_C->rep_msg) && SR_C->req_msg == OLD(SR_C->req_msg) && g_pollr == OLD(g_pollr)))
+/* reply not there yet: must wait, the aio layer is consulted once; refused there => nothing recorded */
+__CPROVER_ensures((!SR_REFUSED && OLD(SR_C->rep_msg) == NULL) ==> (g_start_calls == OLD(g_start_calls) + 1 && g_start_last == aio && g_fin_calls == OLD(g_fin_calls) && SR_C->recv_aio == (g_aio_start_ok ? aio : NULL) && SR_C->rep_msg == NULL))
+/* reply stored: completes in the call with exactly that reply, once, the aio layer is not consulted; not readable any more */
+__CPROVER_ensures((!SR_REFUSED && OLD(SR_C->rep_msg) != NULL) ==> (g_start_calls == OLD(g_start_calls) && g_fin_calls == OLD(g_fin_calls) + 1 && g_fin_last == aio && g_fin_last_rv == 0 && g_fin_last_msg == OLD(SR_C->rep_msg)
+    && aio->a_msg == OLD(SR_C->rep_msg) && g_fin_last_count == aio->a_msg->m_body.ch_len && SR_C->rep_msg == NULL && SR_C->recv_aio == NULL && !g_pollr))
+COVER(SR_REFUSED && OLD(SR_C->conn_reset)) COVER(!SR_REFUSED && OLD(SR_C->rep_msg) == NULL && !g_aio_start_ok) COVER(!SR_REFUSED && OLD(SR_C->rep_msg) != NULL)
+;
+/* ====================================================================== */
+/* req0_ctx_reset (C03: everything the context owns is released exactly once; C04: the id leaves the map).
+ * Called with the lock held, after the callers have detached a pending send (send_aio == NULL): states 0, 2, 3. */
+#define R_CTX ((req0_ctx *) ctx)
+void req0_ctx_reset(req0_ctx *ctx)
+__CPROVER_requires(S_CTX_PRE && ctx == C1 && X_ST != 1)
 __CPROVER_requires(X_MSGS_PRE)
-__CPROVER_requires(MSG_PRE(NEWMSG) && NEWMSG->m_refcnt.v < 1000 && CH_GHOST_PRE(&NEWMSG->m_body))
+__CPROVER_assigns(X_CTX_ASSIGNS)
+X_RESET_FREES
+X_PIPE_ASSIGNS
+#if X_ON_PIPE
+__CPROVER_assigns(P3->node)
+#endif
+/* no request, no stored reply, nothing latched, on no list; a pending receive is NOT touched (the caller's job) */
+__CPROVER_ensures(CTX_IS_RESET(C1) && S_SENDQ_WITHOUT_C1 && LIST_IS_EMPTY(&SOCK->retry_queue) && X_OFF_PIPE && S_BUSY_UNCHANGED && C1->recv_aio == OLD(C1->recv_aio) && C1->send_aio == NULL)
+__CPROVER_ensures(g_fin_calls == OLD(g_fin_calls) && g_start_calls == OLD(g_start_calls) && g_pipe_send_calls == OLD(g_pipe_send_calls) && g_lock_ops == OLD(g_lock_ops))
+/* the id is released; no other entry is disturbed */
+__CPROVER_ensures(X_ID_RELEASED)
+__CPROVER_ensures(g_idm_key != (uint64_t) OLD(C1->request_id) ==> (g_rr.idm_has == OLD(g_rr.idm_has) && g_rr.idm_val == OLD(g_rr.idm_val)))
+/* retained copy: released once iff owned (resend time of the sent request > 0); stored reply: released once */
+X_DISCARD_HEAP
+#if X_ST == 2 && X_RM == 2
+__CPROVER_ensures(C1->req_msg == NULL)
+#endif
+#if X_ST == 2
+COVER(IDM_TRACKS(OLD(C1->request_id)) && OLD(g_rr.idm_has))
+#endif
+#if X_ST == 2 && X_RM == 1
+COVER(OLD(C1->req_msg->m_refcnt.v) == 1) COVER(OLD(C1->req_msg->m_refcnt.v) > 1)
+#endif
+#if X_ST == 3
+COVER(OLD(C1->rep_msg->m_refcnt.v) == 1)
+#endif
+COVER(1)
+;
+
+/* ====================================================================== */
+/* req0_ctx_fini (context close; C03: everything the context owns is released exactly once, a message still
+ * waiting to be sent goes back to its sender; C02/C04: pending operations fail with NNG_ECLOSED, once each).
+ * States 0..3 of C1 as for req0_ctx_send; the pending receive is aio C, the pending send aio B.  C1 is on the
+ * socket's context list (-DF_CL=1: alone, 2: behind the socket's own context). */
+#ifndef F_CL
+#define F_CL 1
+#endif
+#if F_CL == 1
+#define F_CL_PRE LIST_IS_ONE(&SOCK->contexts, &C1->sock_node)
+#define F_CL_POST LIST_IS_EMPTY(&SOCK->contexts)
+#else
+#define F_CL_PRE LIST_IS_TWO(&SOCK->contexts, &SOCK->master.sock_node, &C1->sock_node)
+#define F_CL_POST LIST_IS_ONE(&SOCK->contexts, &SOCK->master.sock_node)
+#endif
+static void req0_ctx_fini(void *arg)
+__CPROVER_requires(S_CTX_PRE && arg == g_c1 && VP_NO_LOCK_HELD && F_CL_PRE)
+__CPROVER_requires(X_MSGS_PRE)
 __CPROVER_requires(REQ_ID_INV(C1))
-__CPROVER_assigns(X_CTX_ASSIGNS, VPY_GHOSTS)
-__CPROVER_assigns(C1->req_len, C1->req_retry, C1->retry_time, SOCK->retry_active, AIO_A->a_msg, AIO_A->a_count, NEWMSG->m_header_len, NEWMSG->m_header_buf, NEWMSG->m_refcnt)
+__CPROVER_assigns(X_CTX_ASSIGNS, VPY_GHOSTS, C1->sock_node, SOCK->contexts.ll_head)
+#if F_CL == 2
+__CPROVER_assigns(SOCK->master.sock_node)
+#endif
 X_RESET_FREES
 X_PIPE_ASSIGNS
 #if X_ON_PIPE
 __CPROVER_assigns(P3->node)
 #endif
 #if X_ST == 1
-__CPROVER_assigns(C1->send_aio->a_msg, C1->req_msg->m_header_len)
+__CPROVER_assigns(C1->send_aio->a_msg)
 #endif
-#if S_RP == 1
-__CPROVER_assigns(SOCK->ready_pipes.ll_head, SOCK->busy_pipes.ll_head, P1->node, P1->contexts.ll_head, P1->aio_send.a_msg)
-#endif
-#if S_Q2 == 1
-__CPROVER_assigns(C2->send_node)
-#endif
-__CPROVER_ensures(VP_NO_LOCK_HELD && g_pipe_close_calls == OLD(g_pipe_close_calls) && g_yf.other == OLD(g_yf.other))
-/* ---- closed socket: NNG_ECLOSED, the message stays with the caller, nothing is touched ---- */
-__CPROVER_ensures(S_CLOSED ==> (FIN_ONCE(FIN_A, NNG_ECLOSED, OLD(NEWMSG)) && NEWMSG == OLD(NEWMSG) && NEWMSG->m_refcnt.v == OLD(NEWMSG->m_refcnt.v) && NEWMSG->m_header_len == OLD(NEWMSG->m_header_len)
-    && FIN_NONE(FIN_B) && FIN_NONE(FIN_C) && g_start_calls == OLD(g_start_calls) && g_pipe_send_calls == OLD(g_pipe_send_calls) && g_free_calls == OLD(g_free_calls) && g_rr.sleep_calls == OLD(g_rr.sleep_calls)
-    && C1->request_id == OLD(C1->request_id) && C1->req_msg == OLD(C1->req_msg) && C1->rep_msg == OLD(C1->rep_msg) && C1->recv_aio == OLD(C1->recv_aio) && C1->send_aio == OLD(C1->send_aio) && C1->conn_reset == OLD(C1->conn_reset)
-    && S_LISTS_PRE && g_rr.idm_has == OLD(g_rr.idm_has) && g_rr.idm_remove_calls == OLD(g_rr.idm_remove_calls) && g_rr.idm_other_ops == OLD(g_rr.idm_other_ops) && g_rr.idm_alloc_calls == OLD(g_rr.idm_alloc_calls) && g_pollw == OLD(g_pollw) && g_pollr == OLD(g_pollr)))
-/* ---- open socket: the previous request of this context is discarded (C04) ---- */
-/* a pending receive (aio C) fails with NNG_ECANCELED, once */
+__CPROVER_ensures(VP_NO_LOCK_HELD && g_yf.other == OLD(g_yf.other) && FIN_NONE(FIN_A) && g_start_calls == OLD(g_start_calls) && g_pipe_send_calls == OLD(g_pipe_send_calls) && g_pipe_close_calls == OLD(g_pipe_close_calls))
 #if X_RA == 2
-__CPROVER_ensures(!S_CLOSED ==> FIN_ONCE(FIN_C, NNG_ECANCELED, AIO_C->a_msg))
+__CPROVER_ensures(FIN_ONCE(FIN_C, NNG_ECLOSED, AIO_C->a_msg))
 #else
 __CPROVER_ensures(FIN_NONE(FIN_C))
 #endif
-/* a superseded send that had not left yet (aio B) fails with NNG_ECANCELED and gets ITS message back: attached,
- * bare (no request id header), still referenced exactly as before, not released by the reset */
 #if X_ST == 1
-__CPROVER_ensures(!S_CLOSED ==> (FIN_ONCE(FIN_B, NNG_ECANCELED, OLD(C1->req_msg)) && AIO_B->a_msg == OLD(C1->req_msg) && OLD(C1->req_msg)->m_header_len == 0 && OLD(C1->req_msg)->m_refcnt.v == OLD(C1->req_msg->m_refcnt.v)
-    && g_free_calls == OLD(g_free_calls)))
+/* the request never left: it goes back to its sender, attached to the failing aio, not released */
+__CPROVER_ensures(FIN_ONCE(FIN_B, NNG_ECLOSED, OLD(C1->req_msg)) && AIO_B->a_msg == OLD(C1->req_msg) && OLD(C1->req_msg)->m_refcnt.v == OLD(C1->req_msg->m_refcnt.v))
 #else
 __CPROVER_ensures(FIN_NONE(FIN_B))
 #endif
-/* the retained copy of a request already sent is released exactly once iff the context owns it (resend time of
- * THAT request > 0); a stored reply is released exactly once */
-#if X_ST == 2 && X_RM == 1
-__CPROVER_ensures((!S_CLOSED && OLD(C1->req_msg->m_refcnt.v) > 1) ==> (OLD(C1->req_msg)->m_refcnt.v == OLD(C1->req_msg->m_refcnt.v) - 1 && g_free_calls == OLD(g_free_calls)))
-__CPROVER_ensures((!S_CLOSED && OLD(C1->req_msg->m_refcnt.v) == 1) ==> (__CPROVER_was_freed(OLD(C1->req_msg)) && g_free_calls == OLD(g_free_calls) + 2))
-#elif X_ST == 3
-__CPROVER_ensures((!S_CLOSED && OLD(C1->rep_msg->m_refcnt.v) > 1) ==> (OLD(C1->rep_msg)->m_refcnt.v == OLD(C1->rep_msg->m_refcnt.v) - 1 && g_free_calls == OLD(g_free_calls)))
-__CPROVER_ensures((!S_CLOSED && OLD(C1->rep_msg->m_refcnt.v) == 1) ==> (__CPROVER_was_freed(OLD(C1->rep_msg)) && g_free_calls == OLD(g_free_calls) + 2))
-#elif X_ST == 0
-__CPROVER_ensures((!S_CLOSED && OLD(C1->rep_msg) == NULL) ==> g_free_calls == OLD(g_free_calls))
-__CPROVER_ensures((!S_CLOSED && OLD(C1->rep_msg) != NULL) ==> g_free_calls <= OLD(g_free_calls) + 2)
-#elif X_ST == 2
-__CPROVER_ensures(g_free_calls == OLD(g_free_calls))
+__CPROVER_ensures(CTX_IS_RESET(C1) && C1->send_aio == NULL && C1->recv_aio == NULL && S_SENDQ_WITHOUT_C1 && LIST_IS_EMPTY(&SOCK->retry_queue) && X_OFF_PIPE && S_BUSY_UNCHANGED && NODE_IDLE(&C1->sock_node) && F_CL_POST)
+__CPROVER_ensures(X_ID_RELEASED)
+__CPROVER_ensures(g_idm_key != (uint64_t) OLD(C1->request_id) ==> (g_rr.idm_has == OLD(g_rr.idm_has) && g_rr.idm_val == OLD(g_rr.idm_val)))
+X_DISCARD_HEAP
+#if X_ST == 1 || X_ST == 2
+COVER(IDM_TRACKS(OLD(C1->request_id)) && OLD(g_rr.idm_has))
 #endif
-/* the old id leaves the map (a late reply to the superseded request matches nobody); entries of all other ids
- * (other contexts) are not disturbed */
-__CPROVER_ensures((!S_CLOSED && IDM_TRACKS(OLD(C1->request_id)) && !(S_ACCEPTED && g_idm_key == (uint64_t) S_NEWID)) ==> !g_rr.idm_has)
-__CPROVER_ensures((g_idm_key != (uint64_t) OLD(C1->request_id) && !(!S_CLOSED && g_idm_alloc_ok && g_idm_key == (uint64_t) S_NEWID)) ==> (g_rr.idm_has == OLD(g_rr.idm_has) && g_rr.idm_val == OLD(g_rr.idm_val)))
-__CPROVER_ensures(!S_CLOSED ==> (C1->rep_msg == NULL && !C1->conn_reset && C1->recv_aio == NULL && X_OFF_PIPE && g_rr.idm_alloc_calls == OLD(g_rr.idm_alloc_calls) + 1))
-/* the context and the id map agree, whatever happened */
-__CPROVER_ensures(REQ_ID_INV(C1))
-/* ---- id allocation fails (C20): NNG_ENOMEM, lock released, the message stays with the caller untouched, the
- * context is idle (no request), nothing queued, nothing armed ---- */
-__CPROVER_ensures(S_NOMEM ==> (FIN_ONCE(FIN_A, NNG_ENOMEM, OLD(NEWMSG)) && NEWMSG == OLD(NEWMSG) && NEWMSG->m_refcnt.v == OLD(NEWMSG->m_refcnt.v) && NEWMSG->m_header_len == OLD(NEWMSG->m_header_len)
-    && S_CTX_IDLE && g_start_calls == OLD(g_start_calls) && g_pipe_send_calls == OLD(g_pipe_send_calls) && g_rr.sleep_calls == OLD(g_rr.sleep_calls) && SOCK->retry_active == OLD(SOCK->retry_active) && S_READY_PRE))
-/* ---- no pipe ready and the aio layer refuses (non-blocking, stopped, aborted: C15): the aio layer completes
- * the aio; here: nothing queued, message still attached and still the caller's, the fresh id is released
- * again and the context is idle ---- */
-__CPROVER_ensures(S_REFUSED ==> (g_start_calls == OLD(g_start_calls) + 1 && g_start_last == aio && FIN_NONE(FIN_A) && NEWMSG == OLD(NEWMSG) && NEWMSG->m_refcnt.v == OLD(NEWMSG->m_refcnt.v)
-    && S_CTX_IDLE && g_pipe_send_calls == OLD(g_pipe_send_calls) && g_rr.sleep_calls == OLD(g_rr.sleep_calls) && SOCK->retry_active == OLD(SOCK->retry_active)
-    && (g_idm_key == (uint64_t) S_NEWID ==> !g_rr.idm_has)))
-/* ---- accepted: the new request ---- */
-/* fresh id from the id map: request bit set, registered for this context; the header of the request is
- * exactly that id, big-endian; the body is untouched; the message is detached from the aio and owned here */
-__CPROVER_ensures(S_ACCEPTED ==> (C1->request_id == S_NEWID && C1->request_id >= 0x80000000u && (g_idm_key == (uint64_t) S_NEWID ==> (g_rr.idm_has && g_rr.idm_val == g_c1))
-    && AIO_A->a_msg == NULL && C1->req_msg == OLD(NEWMSG) && C1->req_msg->m_header_len == 4 && BE32(HDR(C1->req_msg)) == S_NEWID
-    && C1->req_msg->m_body.ch_len == OLD(NEWMSG->m_body.ch_len) && C1->req_len == OLD(NEWMSG->m_body.ch_len) && C1->req_retry == C1->retry))
-__CPROVER_ensures((S_ACCEPTED && g_k < OLD(NEWMSG->m_body.ch_len)) ==> C1->req_msg->m_body.ch_ptr[g_k] == g_b)
-/* resending enabled (C12): deadline set, on the retry schedule (once), tick timer armed iff it was not;
- * disabled: not on the schedule, timer untouched */
-__CPROVER_ensures((S_ACCEPTED && C1->retry > 0) ==> (C1->retry_time == g_now + (nni_time) C1->retry && LIST_IS_ONE(&SOCK->retry_queue, &C1->retry_node) && SOCK->retry_active
-    && (OLD(SOCK->retry_active) ? g_rr.sleep_calls == OLD(g_rr.sleep_calls) : (g_rr.sleep_calls == OLD(g_rr.sleep_calls) + 1 && g_rr.sleep_aio == &SOCK->retry_aio && g_rr.sleep_ms == SOCK->retry_tick))))
-__CPROVER_ensures((S_ACCEPTED && C1->retry <= 0) ==> (LIST_IS_EMPTY(&SOCK->retry_queue) && NODE_IDLE(&C1->retry_node) && g_rr.sleep_calls == OLD(g_rr.sleep_calls) && SOCK->retry_active == OLD(SOCK->retry_active)))
-/* no pipe ready: the aio layer was consulted (once) and the request waits at the TAIL of the send queue */
-__CPROVER_ensures(S_QUEUED ==> (g_start_calls == OLD(g_start_calls) + 1 && g_start_last == aio && FIN_NONE(FIN_A) && C1->send_aio == aio && S_SENDQ_C1_AT_TAIL && NODE_IDLE(&C1->pipe_node)
-    && g_pipe_send_calls == OLD(g_pipe_send_calls) && C1->req_msg->m_refcnt.v == OLD(NEWMSG->m_refcnt.v) && g_pollw == OLD(g_pollw) && S_BUSY_UNCHANGED))
-#if S_RP == 1
-/* a pipe is ready (C15: the send proceeds in the call, nni_aio_start is NOT reached): the request goes out on
- * that pipe, the aio completes with 0 and without message, the context kept a reference iff resending is on */
-__CPROVER_ensures(S_SENT ==> (g_start_calls == OLD(g_start_calls) && FIN_ONCE(FIN_A, 0, NULL) && C1->send_aio == NULL && AIO_A->a_count == OLD(AIO_A->a_count) + OLD(NEWMSG->m_body.ch_len)
-    && g_pipe_send_calls == OLD(g_pipe_send_calls) + 1 && g_pipe_send_pipe == P1->pipe && g_pipe_send_aio == &P1->aio_send && g_pipe_send_msg == OLD(NEWMSG) && P1->aio_send.a_msg == OLD(NEWMSG)
-    && LIST_IS_ONE(&P1->contexts, &C1->pipe_node) && S_SENDQ_WITHOUT_C1 && LIST_IS_EMPTY(&SOCK->ready_pipes) && S_BUSY_PLUS_P1 && !g_pollw
-    && C1->req_msg->m_refcnt.v == OLD(NEWMSG->m_refcnt.v) + (C1->retry > 0 ? 1 : 0)))
+#if X_ST == 2 && X_RM == 1
+COVER(OLD(C1->req_msg->m_refcnt.v) == 1) COVER(OLD(C1->req_msg->m_refcnt.v) > 1)
+#endif
+COVER(1)
+;
+
+/* ====================================================================== */
+/* req0_sock_close: the socket is marked closed under its lock; nothing else (P, loop-free) */
+static void req0_sock_close(void *arg)
+__CPROVER_requires(__CPROVER_is_fresh(arg, sizeof(struct req0_sock)) && VP_NO_LOCK_HELD)
+__CPROVER_assigns(((req0_sock *) arg)->closed, VP_SYNC_GHOSTS)
+__CPROVER_ensures(((req0_sock *) arg)->closed && VP_NO_LOCK_HELD && g_lock_ops == OLD(g_lock_ops) + 2)
+;
+
+/* ====================================================================== */
+/* req0_send_cb and req0_pipe_start: a pipe P1 (= arg) becomes available.
+ * -DSC_RP2=1: another pipe P2 is already ready (only when nobody waits).  C1 is in a state of the request state
+ * machine; if that state has it on the send queue (X_ST=1 first transmission pending with send aio B; X_ST=2,
+ * X_SQ=1 waiting for a resend, previous transmission on the busy pipe P3) it is the one waiting context. */
+#ifndef SC_RP2
+#define SC_RP2 0
+#endif
+#define AVP ((req0_pipe *) arg)
+#if X_ON_PIPE
+#define AV_P3_PRE (PIPE_OK(g_pp3) && DISTINCT(g_pp3, g_p1) && LIST_IS_ONE(&P3->contexts, &C1->pipe_node))
+#define AV_BUSY_OTHERS (LIST_IS_ONE(&SOCK->busy_pipes, &P3->node))
+#define AV_BUSY_WITH_P1 (LIST_IS_TWO(&SOCK->busy_pipes, &P3->node, &P1->node))
+#else
+#define AV_P3_PRE (NODE_IDLE(&C1->pipe_node))
+#define AV_BUSY_OTHERS (LIST_IS_EMPTY(&SOCK->busy_pipes))
+#define AV_BUSY_WITH_P1 (LIST_IS_ONE(&SOCK->busy_pipes, &P1->node))
+#endif
+#if SC_RP2 == 1
+#define AV_READY_OTHERS (LIST_IS_ONE(&SOCK->ready_pipes, &P2->node))
+#define AV_READY_WITH_P1 (LIST_IS_TWO(&SOCK->ready_pipes, &P2->node, &P1->node))
+#define AV_P2_PRE (PIPE_OK(g_p2) && DISTINCT(g_p1, g_p2) && LIST_IS_EMPTY(&P2->contexts))
+#else
+#define AV_READY_OTHERS (LIST_IS_EMPTY(&SOCK->ready_pipes))
+#define AV_READY_WITH_P1 (LIST_IS_ONE(&SOCK->ready_pipes, &P1->node))
+#define AV_P2_PRE (1)
+#endif
+#define AV_COMMON_PRE (SOCK_PRE && Q_C1_PRE && X_AIOS_PRE && X_RECV_AIO_PRE && X_SEND_AIO_PRE && X_STATE_PRE && PIPE_OK(g_p1) && arg == g_p1 && LIST_IS_EMPTY(&P1->contexts) \
+    && AV_P3_PRE && AV_P2_PRE && S_SENDQ_PRE && S_RETRYQ_PRE && VP_NO_LOCK_HELD)
+#define AV_ASSIGNS SOCK->ready_pipes.ll_head, SOCK->busy_pipes.ll_head, SOCK->send_queue.ll_head, SOCK->retry_queue.ll_head, P1->node, P1->contexts.ll_head, P1->aio_send.a_msg, \
+    C1->send_node, C1->retry_node, C1->pipe_node, C1->send_aio, VP_PROTO_GHOST_LIST, VP_RR_GHOST_LIST, VP_SYNC_GHOSTS, VPX_FIN_GHOSTS, VPY_GHOSTS
+/* the waiting context C1 went out on P1 (C12: clone and retry schedule iff resending is on for that request) */
+#define AV_C1_SENT_ON_P1                                                                                     \
+	(NODE_IDLE(&C1->send_node) && LIST_IS_EMPTY(&SOCK->send_queue) && LIST_IS_ONE(&P1->contexts, &C1->pipe_node) && X_OFF_PIPE && C1->send_aio == NULL && \
+	    P1->aio_send.a_msg == C1->req_msg && C1->req_msg == OLD(C1->req_msg) && C1->req_msg->m_refcnt.v == OLD(C1->req_msg->m_refcnt.v) + (C1->req_retry > 0 ? 1 : 0) && \
+	    g_pipe_send_calls == OLD(g_pipe_send_calls) + 1 && g_pipe_send_pipe == P1->pipe && g_pipe_send_aio == &P1->aio_send && g_pipe_send_msg == C1->req_msg && \
+	    (C1->req_retry > 0 ? LIST_IS_ONE(&SOCK->retry_queue, &C1->retry_node) : (LIST_IS_EMPTY(&SOCK->retry_queue) && NODE_IDLE(&C1->retry_node))) && \
+	    AV_READY_OTHERS && AV_BUSY_WITH_P1 && !g_pollw)
+#if X_ON_SENDQ
+#define AV_C1_ASSIGNS __CPROVER_assigns(C1->req_msg->m_refcnt)
+#else
+#define AV_C1_ASSIGNS
+#endif
+#if X_ON_PIPE
+#define AV_P3_ASSIGNS __CPROVER_assigns(P3->node, P3->contexts.ll_head)
+#else
+#define AV_P3_ASSIGNS
+#endif
+#if SC_RP2 == 1
+#define AV_P2_ASSIGNS __CPROVER_assigns(P2->node)
+#else
+#define AV_P2_ASSIGNS
+#endif
+
+/* ---- req0_send_cb (C03: a failed send releases the message once and disconnects; C15/C12: after a successful
+ * send the pipe goes back to the TAIL of the ready list / the next waiting request goes out on it; a closed pipe
+ * or a closed socket is left alone) ---- */
+#ifdef SC_FAILED
+static void req0_send_cb(void *arg)
+__CPROVER_requires(SOCK_PRE && PIPE_OK(g_p1) && arg == g_p1 && VP_NO_LOCK_HELD)
+__CPROVER_requires(AVP->aio_send.a_result != 0 && MSG_PRE(AVP->aio_send.a_msg) && AVP->aio_send.a_msg->m_refcnt.v < 1000)
+__CPROVER_assigns(AVP->aio_send.a_msg, *(AVP->aio_send.a_msg), VP_PROTO_GHOST_LIST, g_free_calls)
+__CPROVER_frees(AVP->aio_send.a_msg, AVP->aio_send.a_msg->m_body.ch_buf)
+__CPROVER_ensures(VP_NO_LOCK_HELD && g_lock_ops == OLD(g_lock_ops) && AVP->aio_send.a_msg == NULL)
+__CPROVER_ensures(g_pipe_close_calls == OLD(g_pipe_close_calls) + 1 && g_pipe_close_last == AVP->pipe && g_pipe_send_calls == OLD(g_pipe_send_calls) && g_fin_calls == OLD(g_fin_calls) && g_pollw == OLD(g_pollw))
+/* the pipe's reference to the message is dropped exactly once (a context that retained a copy keeps its own) */
+__CPROVER_ensures(OLD(AVP->aio_send.a_msg->m_refcnt.v) > 1 ==> (OLD(AVP->aio_send.a_msg)->m_refcnt.v == OLD(AVP->aio_send.a_msg->m_refcnt.v) - 1 && g_free_calls == OLD(g_free_calls)))
+__CPROVER_ensures(OLD(AVP->aio_send.a_msg->m_refcnt.v) == 1 ==> (__CPROVER_was_freed(OLD(AVP->aio_send.a_msg)) && g_free_calls == OLD(g_free_calls) + 2))
+COVER(OLD(AVP->aio_send.a_msg->m_refcnt.v) == 1) COVER(OLD(AVP->aio_send.a_msg->m_refcnt.v) > 1)
+;
+#else
+#define SC_IGNORED (OLD(P1->closed) || OLD(SOCK->closed))
+static void req0_send_cb(void *arg)
+__CPROVER_requires(AV_COMMON_PRE && AV_BUSY_WITH_P1 && AV_READY_OTHERS)
+__CPROVER_requires(X_MSGS_PRE)
+__CPROVER_requires(AVP->aio_send.a_result == 0)
+__CPROVER_assigns(AV_ASSIGNS)
+AV_C1_ASSIGNS
+AV_P3_ASSIGNS
+AV_P2_ASSIGNS
+#if X_ST == 1
+__CPROVER_assigns(AIO_B->a_count)
+#endif
+__CPROVER_ensures(VP_NO_LOCK_HELD && g_pipe_close_calls == OLD(g_pipe_close_calls) && g_fin_calls == OLD(g_fin_calls) && g_start_calls == OLD(g_start_calls))
+/* pipe closed meanwhile, or socket closed: the pipe is NOT put back on the ready list, nothing is sent */
+__CPROVER_ensures(SC_IGNORED ==> (AV_BUSY_WITH_P1 && AV_READY_OTHERS && S_SENDQ_PRE && S_RETRYQ_PRE && g_pollw == OLD(g_pollw) && g_pipe_send_calls == OLD(g_pipe_send_calls) && g_rr.comp_added == OLD(g_rr.comp_added) && C1->send_aio == OLD(C1->send_aio)))
+#if X_ON_SENDQ
+__CPROVER_ensures(!SC_IGNORED ==> AV_C1_SENT_ON_P1)
+#if X_ST == 1
+/* first transmission: the sender's aio completes with 0 - deferred until the lock is released (completion list) */
+__CPROVER_ensures(!SC_IGNORED ==> (g_rr.comp_added == OLD(g_rr.comp_added) + 1 && g_rr.comp_last == AIO_B && g_rr.comp_last_rv == 0 && AIO_B->a_count == OLD(AIO_B->a_count) + C1->req_len))
+#else
+__CPROVER_ensures(g_rr.comp_added == OLD(g_rr.comp_added))
+#endif
+#else
+/* nobody waits: the pipe is ready again, at the TAIL of the ready list; the socket is writable (C15) */
+__CPROVER_ensures(!SC_IGNORED ==> (AV_READY_WITH_P1 && AV_BUSY_OTHERS && g_pollw && g_pipe_send_calls == OLD(g_pipe_send_calls) && g_rr.comp_added == OLD(g_rr.comp_added) && S_SENDQ_PRE && S_RETRYQ_PRE && LIST_IS_EMPTY(&P1->contexts)))
+#endif
+COVER(OLD(P1->closed)) COVER(OLD(SOCK->closed) && !OLD(P1->closed)) COVER(!SC_IGNORED)
+#if X_ON_SENDQ
+COVER(!SC_IGNORED && C1->req_retry > 0) COVER(!SC_IGNORED && C1->req_retry <= 0)
 #endif
 ;
+#endif
+
+/* ---- req0_pipe_start (wrong peer => NNG_EPROTO and nothing happens; else ready, the first receive armed exactly
+ * once, send queue run) ---- */
+#define PS_REJECTED (g_pipe_peer != 0x31)
+static int req0_pipe_start(void *arg)
+__CPROVER_requires(AV_COMMON_PRE && NODE_IDLE(&P1->node) && AV_BUSY_OTHERS && AV_READY_OTHERS)
+__CPROVER_requires(X_MSGS_PRE)
+__CPROVER_assigns(AV_ASSIGNS)
+AV_C1_ASSIGNS
+AV_P3_ASSIGNS
+AV_P2_ASSIGNS
+#if X_ST == 1
+__CPROVER_assigns(AIO_B->a_count)
+#endif
+__CPROVER_ensures(VP_NO_LOCK_HELD && g_pipe_close_calls == OLD(g_pipe_close_calls) && g_start_calls == OLD(g_start_calls) && g_rr.comp_added == OLD(g_rr.comp_added) && FIN_NONE(FIN_A) && FIN_NONE(FIN_C) && g_yf.other == OLD(g_yf.other))
+__CPROVER_ensures(RV == (PS_REJECTED ? NNG_EPROTO : 0))
+__CPROVER_ensures(PS_REJECTED ==> (g_lock_ops == OLD(g_lock_ops) && g_pipe_recv_calls == OLD(g_pipe_recv_calls) && g_pipe_send_calls == OLD(g_pipe_send_calls) && g_pollw == OLD(g_pollw) && FIN_NONE(FIN_B)
+    && NODE_IDLE(&P1->node) && AV_BUSY_OTHERS && AV_READY_OTHERS && S_SENDQ_PRE && S_RETRYQ_PRE && C1->send_aio == OLD(C1->send_aio)))
+__CPROVER_ensures(!PS_REJECTED ==> (g_pipe_recv_calls == OLD(g_pipe_recv_calls) + 1 && g_pipe_recv_pipe == P1->pipe && g_pipe_recv_aio == &P1->aio_recv))
+#if X_ON_SENDQ
+__CPROVER_ensures(!PS_REJECTED ==> AV_C1_SENT_ON_P1)
+#if X_ST == 1
+__CPROVER_ensures(!PS_REJECTED ==> (FIN_ONCE(FIN_B, 0, AIO_B->a_msg) && AIO_B->a_count == OLD(AIO_B->a_count) + C1->req_len))
+#else
+__CPROVER_ensures(FIN_NONE(FIN_B))
+#endif
+#else
+__CPROVER_ensures(!PS_REJECTED ==> (AV_READY_WITH_P1 && AV_BUSY_OTHERS && g_pollw && g_pipe_send_calls == OLD(g_pipe_send_calls) && FIN_NONE(FIN_B) && S_SENDQ_PRE && S_RETRYQ_PRE && LIST_IS_EMPTY(&P1->contexts)))
+#endif
+COVER(PS_REJECTED) COVER(!PS_REJECTED)
+#if X_ON_SENDQ
+COVER(!PS_REJECTED && C1->req_retry > 0) COVER(!PS_REJECTED && C1->req_retry <= 0)
+#endif
+;
+#include "modules/reqy/contracts_xreq.h"
 /* clang-format on */
 #endif
